@@ -10,4 +10,6 @@ func init() {
 	Props["C05"] = &PropSpec{Level: "other", Rules: []string{"R10"}, Explanation: "tbd"}
 	Props["C16"] = &PropSpec{Level: "other", Rules: []string{"R39", "R40"}, Explanation: "tbd"}
 	Props["C14"] = &PropSpec{Level: "other", Rules: []string{"R37", "R38"}, Explanation: "tbd"}
+	Props["C11"] = &PropSpec{Level: "other", Rules: []string{"R23", "R24", "R25", "R26", "R27"}, Explanation: "tbd"}
+	Props["C10"] = &PropSpec{Level: "other", Rules: []string{"R28", "R29", "R30"}, Explanation: "tbd"}
 }
